@@ -2,6 +2,7 @@
 
 Explicit-state BFS over histories of context/tensor events on the real library, in lock-step with
 a stack-machine reference model (DESIGN.md section 3, C07)."""
+import json
 import numpy as np
 from mc import harness, explorer
 
@@ -371,7 +372,9 @@ def flag_lattice():
     reps = {}
     for fam, cases in ((ct, ct.cases("quick", "grad")), (cn, cn.cases("quick", "grad"))):
         for c in cases:
-            key = (c["op"], c.get("form", "fn"), len(c["shapes"]))
+            # one representative per (op, form, arity, ARGUMENTS): the flag of a result may be gated by an argument value
+            # (an exponent of 0, a dropout probability of 1, keepdims ...), not only by the op
+            key = (c["op"], c.get("form", "fn"), len(c["shapes"]), json.dumps(c.get("args") or {}, sort_keys=True, default=str), tuple(c.get("pats") or ()))
             reps.setdefault(key, (fam, c))
     viols = []; n = 0
     for key, (fam, c) in sorted(reps.items(), key=lambda kv: repr(kv[0])):
@@ -395,9 +398,10 @@ def flag_lattice():
                 except Exception:
                     continue
                 n += 1
+                if any(out is t for t in ts): continue      # the call handed back its operand itself (Dropout in eval mode): no new tensor to judge
                 want = (mode == "grad") and any(bool(t.requires_grad) for i, t in enumerate(ts) if i in fl)
                 name = c["op"] + ("" if c.get("form", "fn") == "fn" else ":" + c["form"])
-                case = {"history": [], "flag_case": {"op": c["op"], "form": c.get("form", "fn"), "noperands": len(arrays)}, "requires_grad": rg, "mode": mode}
+                case = {"history": [], "flag_case": {"op": c["op"], "form": c.get("form", "fn"), "noperands": len(arrays), "args": json.loads(key[3])}, "requires_grad": rg, "mode": mode}
                 if bool(out.requires_grad) != want:
                     viols.append({"kind": f"{name}:result-requires_grad", "detail": f"operand flags {rg}, mode {mode}: result.requires_grad={out.requires_grad}, expected {want}", "case": case})
                 elif (out.grad_fn is not None) != want:
